@@ -342,6 +342,22 @@ pub fn run_history(file: &[u8], ops: &[(usize, Op)], with_fp: bool) -> Result<Ve
     Ok(lines)
 }
 
+/// position exactly on the stored key k, issue an absolute seek that finds nothing (beyond the last key,
+/// or below the first), seek exactly onto k again, then walk until well past the end of its block
+fn failed_seek_pattern(rng: &mut Rng, ops: &mut Vec<(usize, Op)>, cid: usize, k: Vec<u8>, maxrun: u64) {
+    ops.push((cid, match rng.below(4) { 0 => Op::Le(k.clone()), 1 => Op::Eq(k.clone()), _ => Op::Ge(k.clone()) }));
+    let fwd = rng.chance(2, 3);
+    ops.push((cid, if fwd {
+        match rng.below(3) { 0 => Op::Ge(vec![0xff; 40]), 1 => Op::Eq(vec![0xff; 40]), _ => Op::Ge(vec![0xff; 41]) }
+    } else {
+        Op::Le(Vec::new())
+    }));
+    ops.push((cid, match rng.below(5) { 0 => Op::Ge(k), 1 => Op::Le(k), _ => Op::Eq(k) }));
+    for _ in 0..rng.range(2, maxrun) {
+        ops.push((cid, if fwd { Op::Next } else { Op::Prev }));
+    }
+}
+
 pub fn gen_history(rng: &mut Rng, es: &[(Vec<u8>, Vec<u8>)], len: usize, style: u32) -> Vec<(usize, Op)> {
     let pr = probes(rng, es);
     let mut ops = Vec::new();
@@ -381,6 +397,10 @@ pub fn gen_history(rng: &mut Rng, es: &[(Vec<u8>, Vec<u8>)], len: usize, style: 
                             ops.push((0, Op::Next));
                         }
                     }
+                    if rng.chance(1, 3) {
+                        let k = es[rng.below(es.len() as u64) as usize].0.clone();
+                        failed_seek_pattern(rng, &mut ops, 0, k, 6);
+                    }
                 }
             }
         }
@@ -416,13 +436,7 @@ pub fn gen_history(rng: &mut Rng, es: &[(Vec<u8>, Vec<u8>)], len: usize, style: 
                     // an absolute seek that finds nothing, an exact seek onto a stored key (often the last of
                     // its block), then a walk across the block boundary
                     let k = es[rng.below(es.len() as u64) as usize].0.clone();
-                    ops.push((cid, match rng.below(3) { 0 => Op::Ge(k.clone()), 1 => Op::First, _ => Op::Last }));
-                    ops.push((cid, match rng.below(3) { 0 => Op::Ge(vec![0xff; 40]), 1 => Op::Eq(vec![0xff; 40]), _ => Op::Ge(vec![0xff; 3]) }));
-                    ops.push((cid, match rng.below(4) { 0 => Op::Ge(k), 1 => Op::Le(k), _ => Op::Eq(k) }));
-                    let fwd = rng.chance(2, 3);
-                    for _ in 0..rng.range(1, 10) {
-                        ops.push((cid, if fwd { Op::Next } else { Op::Prev }));
-                    }
+                    failed_seek_pattern(rng, &mut ops, cid, k, 30);
                     continue;
                 }
                 match rng.below(20) {
